@@ -183,6 +183,13 @@ func setMeasurement(in any, val string) error {
 func doCast(result interface{}, tInfo string) (interface{}, ast.DType) {
 	switch strings.ToLower(tInfo) {
 	case "bool":
+		// spf13/cast v1.5.0 ToBool knows int but not int64/float64 (it yields false)
+		switch v := result.(type) {
+		case int64:
+			return v != 0, ast.Bool
+		case float64:
+			return v != 0, ast.Bool
+		}
 		return conv.ToBool(result), ast.Bool
 
 	case "int":
